@@ -581,6 +581,11 @@ func (m *Manager) rotateWAL() error {
 		newWAL.UpdateNextSequence(currentWAL.GetNextSequence())
 	}
 
+	// Observers (replication) follow the log, not one log file
+	if currentWAL != nil {
+		currentWAL.HandOverObservers(newWAL)
+	}
+
 	// Store the old WAL for proper closure
 	oldWAL := m.wal
 
